@@ -99,7 +99,15 @@ func RenderSlot(s ResSlot, partials bool) string {
 		}
 		ann = append(ann, [2]string{"helm.sh/hook", ev})
 		if s.Hook.Weight != nil {
-			ann = append(ann, [2]string{"helm.sh/hook-weight", fmt.Sprintf("%d", *s.Hook.Weight)})
+			ws := fmt.Sprintf("%d", *s.Hook.Weight)
+			if s.Hook.PadWeight > 0 {
+				if *s.Hook.Weight < 0 {
+					ws = fmt.Sprintf("-%0*d", s.Hook.PadWeight, -*s.Hook.Weight)
+				} else {
+					ws = fmt.Sprintf("%0*d", s.Hook.PadWeight, *s.Hook.Weight)
+				}
+			}
+			ann = append(ann, [2]string{"helm.sh/hook-weight", ws})
 		}
 		if s.Hook.Policies != nil {
 			sep := s.Hook.PolicySep
